@@ -236,7 +236,7 @@ Proof. exact (admission_lift abR abR_refl abR_trans weights_delete_ab weights_ad
 
 (** ** the invariant carried along a micro schedule *)
 Definition wkey (ms : mstate) : option Z :=
-  match wdel ms with Some (WPAdmitted _ k _ _ _ _) => Some k | _ => None end.
+  match wdel ms with Some (WPCharged _ k _ _ _ _) => Some k | _ => None end.
 
 Record MBal (ms : mstate) : Prop := {
   mb_bal : BAL (mbase ms);
